@@ -249,6 +249,15 @@ func runCase(c *ccase, r *res.Result) (string, string) {
 					ctx, done, mode = context.Background(), func() {}, "probe"
 					atomic.StoreInt64(&wws.cancelledAt, 0)
 				}
+				if mode == "before" && rng.Intn(3) == 0 {
+					// an empty write with a context that is already done: nothing can be transferred, so the only possible
+					// outcome is zero bytes and the context's error
+					n0, err0 := ends[d].Write(ctx, data[:0])
+					r.Count("empty_writes_with_done_context", 1)
+					if n0 != 0 || err0 == nil || !(errors.Is(err0, context.Canceled) || errors.Is(err0, context.DeadlineExceeded)) {
+						violate("ctxio:"+c.Kind+":empty-op-ignores-context", fmt.Sprintf("direction %d: a zero-length write with an already cancelled context returned (%d, %v), want 0 bytes and the context's error", d, n0, err0))
+					}
+				}
 				atomic.StoreInt32(&wws.inOp, 1)
 				n, err := ends[d].Write(ctx, data)
 				atomic.StoreInt32(&wws.inOp, 0)
